@@ -355,7 +355,9 @@ class SceneGraph:
             b_attr = nodes[b]
             # make sure we're not stomping on original
             attr_new = attr.copy()
-            # apply node geometry to edge attributes
+            # the node is the authority on geometry: drop any stale
+            # value stored on the edge then apply the node geometry
+            attr_new.pop("geometry", None)
             if "geometry" in b_attr:
                 attr_new["geometry"] = b_attr["geometry"]
             # convert any numpy arrays to regular lists
